@@ -32,7 +32,7 @@ Proof.
   - unfold imp_release, imp_shutdown in H.
     repeat match type of H with context [match ?x with _ => _ end] => destruct x; simpl in H; try discriminate end;
       inversion H; reflexivity.
-  - inversion H; subst. change (k_ans (core_of (emb_release e s)) = k_ans (core_of s)). rewrite core_emb_release. reflexivity.
+  - inversion H; subst. change (k_ans (core_of (emb_release c e s)) = k_ans (core_of s)). rewrite core_emb_release. reflexivity.
 Qed.
 
 Lemma release_caps_ans : forall c l s s' o, release_caps c l s = Ok (s', o) -> s_ans s' = s_ans s.
